@@ -65,10 +65,11 @@ def main():
             root = os.path.join(top, rootname)
             entries = {}      # relative to top: name -> content or None (dir)
             entries[rootname] = None
-            for sub in ("sub", "sub/deep", "a.b"):
+            for sub in ("sub", "sub/deep", "a.b", "1st"):      # names starting with a digit sort differently (alphanum_key)
                 if rng.random() < 0.7 or sub == "sub":
                     entries[rootname + "/" + sub] = None
-            files = ["t.csv", "sub/u.csv", "notes.txt", "sub/x.dat", ".hidden", "arch.tar.gz", "a.b/t.csv", "mycatalog.xml"]
+            files = ["t.csv", "sub/u.csv", "notes.txt", "sub/x.dat", ".hidden", "arch.tar.gz", "a.b/t.csv", "mycatalog.xml",
+                     "2020-01.csv", "10.txt", "sub/9.csv", "1st/t.csv"]
             for f in files:
                 if rng.random() < 0.8 and (os.path.dirname(rootname + "/" + f) in entries):
                     entries[rootname + "/" + f] = f
@@ -93,7 +94,7 @@ def main():
 
         segs = ["..", ".", "", "sub", "deep", "t.csv", "u.csv", "t.csv.dds", "t.csv.das", "u.csv.dods", "notes.txt", "notes.txt.dds",
                 "catalog.xml", "%2e%2e", "..%2F", "x.dat", "x.dat.dds", ".hidden", "arch.tar.gz", "a.b", "nope", "mycatalog.xml",
-                "t.csv.xyz", "t", "%2E", "%252e%252e", "%252E%252E", "..%252F", "%25", "s.txt.dds", "%2e%2e%2f"]
+                "t.csv.xyz", "t", "%2E", "1st", "2020-01.csv", "2020-01.csv.dds", "10.txt", "9.csv.dods", "%252e%252e", "%252E%252E", "..%252F", "%25", "s.txt.dds", "%2e%2e%2f"]
         for top, rootname, root, entries in layouts:
             sib_segs = [rootname + "2", rootname + "_old", "other", "s.txt", rootname]
             allsegs = segs + sib_segs
